@@ -1287,8 +1287,85 @@ def r11_sort_keys_and_vanished_first_subdir(repo=None):
     return r
 
 
+def r12_walk_prunes_only_inside_channels(repo=None):
+    """'complete: every finalized file under the path is listed' with recursion on: os.walk descends into whatever is left in its
+    `dirs` list, so a directory removed from that list hides every channel below it.  The only removals the listing needs are the
+    time-stamped sub-directories *of a channel* (made by the per-channel step, which receives `dirs`; R1) and everything when
+    recursion is off.  Who-may-modify check on the walk loop of ilsdrf itself: the list is re-ordered (sort / sorted of the whole
+    list) or emptied under the recursion flag; a filter over it (comprehension with a condition, filter(), remove / pop) prunes
+    directories by name wherever they are - a campaign directory called 2014-03-09T12-00-00 above a channel is never entered."""
+    r = Rule("C14.R12", "the directory walk prunes nothing outside a channel directory (re-ordering and the non-recursive cut only)")
+    m = pyfront.mod("list_drf", repo)
+    n = 0
+    for q, f in m.functions.items():
+        if "." in q:
+            continue
+        for lp in ast.walk(f):
+            if not (isinstance(lp, ast.For) and isinstance(lp.iter, ast.Call) and pyfront.call_name(lp.iter) == "os.walk"
+                    and isinstance(lp.target, ast.Tuple) and len(lp.target.elts) == 3 and isinstance(lp.target.elts[1], ast.Name)):
+                continue
+            dv = lp.target.elts[1].id
+            par = {}
+            for x in ast.walk(lp):
+                for ch in ast.iter_child_nodes(x):
+                    par[ch] = x
+
+            def under_recursive_flag(node):
+                p_ = par.get(node)
+                while p_ is not None and p_ is not lp:
+                    if isinstance(p_, ast.If) and any(isinstance(y, ast.Name) and "recurs" in y.id for y in ast.walk(p_.test)):
+                        return True
+                    p_ = par.get(p_)
+                return False
+            for x in ast.walk(lp):
+                site = None
+                verdict = None
+                if isinstance(x, ast.Call) and isinstance(x.func, ast.Attribute) and isinstance(x.func.value, ast.Name) and x.func.value.id == dv:
+                    site = norm(ast.unparse(x))[:60]
+                    if x.func.attr in ("sort", "reverse"):
+                        verdict = ("ok", "re-orders the list")
+                    elif x.func.attr == "clear":
+                        verdict = ("ok", "recursion is off") if under_recursive_flag(x) else ("unknown", None)
+                    elif x.func.attr in ("remove", "pop"):
+                        verdict = ("bad", None)
+                    elif x.func.attr in ("append", "extend", "insert"):
+                        verdict = ("unknown", None)
+                elif isinstance(x, ast.Delete) and any(isinstance(t, ast.Subscript) and isinstance(t.value, ast.Name) and t.value.id == dv for t in x.targets):
+                    site = norm(ast.unparse(x))[:60]
+                    whole = all(isinstance(t.slice, ast.Slice) and t.slice.lower is None and t.slice.upper is None for t in x.targets if isinstance(t, ast.Subscript))
+                    verdict = ("ok", "recursion is off") if whole and under_recursive_flag(x) else ("bad", None) if not whole else ("unknown", None)
+                elif isinstance(x, ast.Assign) and any(isinstance(t, ast.Subscript) and isinstance(t.value, ast.Name) and t.value.id == dv for t in x.targets):
+                    site = norm(ast.unparse(x))[:70]
+                    v = x.value
+                    if isinstance(v, ast.Call) and pyfront.call_name(v) in ("sorted", "reversed", "list") and v.args and isinstance(v.args[0], ast.Name) and v.args[0].id == dv:
+                        verdict = ("ok", "re-orders the list")
+                    elif isinstance(v, (ast.List, ast.Tuple)) and not v.elts:
+                        verdict = ("ok", "recursion is off") if under_recursive_flag(x) else ("unknown", None)
+                    elif any(isinstance(y, ast.comprehension) and y.ifs and any(isinstance(z, ast.Name) and z.id == dv for z in ast.walk(y.iter)) for y in ast.walk(v)) \
+                            or any(isinstance(y, ast.Call) and pyfront.call_name(y) == "filter" for y in ast.walk(v)):
+                        verdict = ("bad", None)
+                    else:
+                        verdict = ("unknown", None)
+                if verdict is None:
+                    continue
+                n += 1
+                if verdict[0] == "ok":
+                    r.ok("%s:%s %s `%s`" % (m.rel, x.lineno, q, site), verdict[1])
+                elif verdict[0] == "bad":
+                    r.violation(m.rel, q, site, "directories are filtered out of the walk list in the walk loop itself, wherever they are: a "
+                                "directory that is not part of a channel (a campaign directory named like a time-stamped sub-directory) is "
+                                "never entered and every channel below it is missing from the listing; only the per-channel step may "
+                                "remove the sub-directories it has handled", line=x.lineno)
+                else:
+                    raise AnalysisError("%s: modification `%s` of the walk list not recognised" % (q, site))
+    if n < 2:
+        raise AnalysisError("list_drf: modifications of the os.walk directory list: %d found, 2 confirmed on the reference tree" % n)
+    r.guard(2)
+    return r
+
+
 def rules(repo=None):
-    return [lambda: r11_sort_keys_and_vanished_first_subdir(repo), lambda: r1_grammar(repo), lambda: r2_kind_tables(repo), lambda: r3_sorted_before_sliced(repo),
+    return [lambda: r12_walk_prunes_only_inside_channels(repo), lambda: r11_sort_keys_and_vanished_first_subdir(repo), lambda: r1_grammar(repo), lambda: r2_kind_tables(repo), lambda: r3_sorted_before_sliced(repo),
             lambda: r4_robust_listing(repo), lambda: r5_lookback_complete(repo),
             lambda: r6_reverse_changes_only_the_order(repo), lambda: r7_window_end_inclusive(repo),
             lambda: r8_forward_fill_file_always_taken(repo), lambda: r9_grammar_names_that_are_not_times(repo),
@@ -1316,7 +1393,9 @@ EXPLANATION = (
     "difference to the epoch - no rounding before the comparison. R11: the union of sortkey_drf's default regular "
     'expressions contains the file and the properties grammar (language inclusion); from the OSError handler of the '
     "selected sub-directory's listing the look-back loop is still reachable within the iteration. Does NOT decide the "
-    'remaining window arithmetic (bisect positions).')
+    'remaining window arithmetic (bisect positions). R12: who-may-modify the os.walk directory list inside the walk loop '
+    'of ilsdrf: sort / sorted of the whole list, and emptying it under the recursion flag; a filter (comprehension with a'
+    ' condition, filter(), remove / pop) is a violation, anything else is not decided.')
 TECHNIQUE = ('Python ast; regular-language algebra on folded regex constants; abstract execution of flag chains; sortedness typestate over the CFG; guarded-subscript dataflow; order/element interpretation of sequence expressions + partial evaluation of conditions for both values of a flag')
 ASSUMPTIONS = ["os.walk swallows listing errors by default", "Python regex semantics as modelled by vp.rx"]
 FILES = [LD]
